@@ -1,7 +1,7 @@
 //! C06 — jump() and long_jump() equal 2^(n/2) and 2^(3n/4) single steps from every state.
 
 use super::PropDef;
-use crate::adapter::{self, Ty};
+use crate::adapter::Ty;
 use crate::engine::{CaseInfo, CheckResult, Ctx, ESub, Fail, PSub, SubCheck};
 use crate::gens::{self, Seed};
 use crate::gf2::Bits;
@@ -66,7 +66,7 @@ fn check_state_bits(ty: Ty, s: &Bits, long: bool, outputs: usize, kind: &str) ->
     } else {
         g.jump();
     }
-    let mut expect = adapter::from_seed(ty, &want.to_bytes(n / 8));
+    let mut expect = gen_in_state(ty, &want);
     if g.eq_dyn(&*expect) != Some(true) {
         let steps = if long { 3 * n / 4 } else { n / 2 };
         return Err(Fail::new(format!("C06:{}:{}:{}", jname(long), name, kind), format!("{}() does not land on the state reached by 2^{} single steps (computed as T^(2^{})·s with T extracted from this type's own next)", jname(long), steps, steps))
